@@ -74,10 +74,13 @@ def yaml_text(cfg: dict) -> str:
 
 def write_config(cfg: dict, tag: str) -> str:
     """Write cfg as <scratch>/<tag>/pyplate.yaml, return the directory (a PYPLATE_CONFIG value)."""
-    d = os.path.join(scratch_dir(), 'cfg-' + tag)
+    # one directory per process: forked workers share the scratch tree and must not see each other's half-written files
+    d = os.path.join(scratch_dir(), f'cfg-{os.getpid()}-{tag}')
     os.makedirs(d, exist_ok=True)
-    with open(os.path.join(d, 'pyplate.yaml'), 'w') as fh:
+    path = os.path.join(d, 'pyplate.yaml')
+    with open(path + '.tmp', 'w') as fh:
         fh.write(yaml_text(cfg))
+    os.replace(path + '.tmp', path)
     return d
 
 
